@@ -95,4 +95,23 @@ PROPS['C11'] = {
     'assumptions': [CORR],
 }
 
+PROPS['C19'] = {
+    'lean_targets': ['EmmetProps.C19'],
+    'lean_imports': ['EmmetProps.C19'],
+    'theorems': [
+        thm('EmmetProps.C19_value', 'every printed expression tree (arbitrary blanks, literals 12 / 1.5 / .5, unary signs, parentheses, five operators) whose grouping is the documented one: evaluate(render e) = value of e in exact arithmetic; ZeroDivisionError is the only error; parity and stack underflow never fire'),
+        thm('EmmetProps.C19_arith_add', 'model rationals = Mathlib Q: add'), thm('EmmetProps.C19_arith_sub', 'sub'), thm('EmmetProps.C19_arith_mul', 'mul'),
+        thm('EmmetProps.C19_arith_neg', 'neg'), thm('EmmetProps.C19_arith_floor', 'integer division is the floor of the quotient'),
+        thm('M.Q.div_toRat', 'div (non-zero divisor)'),
+        thm('M.claim', 'pure shunting-yard claim: flushing after the tokens of e = flushing after the postfix form of e was appended'),
+    ],
+    'domains': ['dom_math'],
+    'rule': 'all strings up to length 4 (quick) / 5 (thorough) over `1 2 . + - * / \\ ( ) space`, random longer strings incl. foreign characters (error clause), and expressions generated from the stratified grammar with exact expected values (Fractions; integer division only between integers so that the double floor is exact); extract() at every position of every text; non-trivial = parses into >= 2 tokens; distinct = distinct text',
+    'explanation': 'The exact clause is a theorem end to end (lexing, ordering, evaluation) over exact rationals, tied to Mathlib Q. The implementation computes in IEEE doubles: values are compared within 1e-9 relative. The rejection side (malformed input raises only the parse error) and extract() are decided by correspondence / oracle on the implementation; extract() is not modelled.',
+    'level_text': 'Lean 4 theorem: for every well-formed printed expression with the documented grouping the evaluator model returns the exact arithmetic value (proved end to end: lexer, shunting-yard ordering, RPN evaluation; model rationals proved equal to Mathlib Q). Floating point, the rejection side and extract() are partial: correspondence + oracle.',
+    'level_note': 'Trusted: Lean kernel + standard axioms; hand-written model of parser.py and evaluate (0 differences in RPN token lists, priorities, error classes and positions on every generated input); IEEE rounding is not modelled (values within 1e-9; floor of non-integer quotients excluded).',
+    'assumptions': [CORR, 'double arithmetic agrees with exact arithmetic within 1e-9 relative on the generated expressions', 'numbers have at most 15 digits'],
+    'trusted_extra': ['Mathlib (Data.Rat.Floor, Algebra.Order.Field.Rat, FieldSimp, Ring) for the Q-equals-rationals lemmas only'],
+}
+
 NOT_APPLICABLE = {}
